@@ -4,7 +4,7 @@
 #![allow(unused_macros)]
 
 use crate::refchess::{B, N, P, Q, R};
-use crate::{deep2_cells, deep3_cells, quick_cells, squares64, tiny_cells};
+use crate::{deep2_cells, deep3_cells, exact_cells, quick_cells, squares64, tiny_cells};
 use std::cell::{Cell, RefCell};
 
 thread_local! {
@@ -23,8 +23,8 @@ pub fn maybe(name: &'static str, f: impl Fn()) {
 }
 
 macro_rules! rfam {
-    ($group:ident, $cell:ident, $body:path, $kinds:expr, $turn:expr) => {
-        maybe(concat!(stringify!($group), "::", stringify!($cell)), || $body(&$kinds, $turn, true));
+    ($group:ident, $cell:ident, $body:path, $kinds:expr, $turn:expr, $opt:expr) => {
+        maybe(concat!(stringify!($group), "::", stringify!($cell)), || $body(&$kinds, $turn, $opt));
     };
 }
 macro_rules! rsq {
@@ -38,6 +38,7 @@ macro_rules! family_group {
         deep2_cells!(rfam, $group, $body);
         deep3_cells!(rfam, $group, $body);
         tiny_cells!(rfam, $group, $body);
+        exact_cells!(rfam, $group, $body);
     };
 }
 
@@ -64,12 +65,18 @@ fn all() {
     maybe("c05_full::check_b", || crate::h_check::c05_check_full(1));
     maybe("c05_full::terminal", || crate::h_engine::c11_terminal());
     maybe("c06_lemma::zero_rows", || crate::h_zobrist::c06_zero_rows());
-    maybe("c06_lemma::linear_p", || crate::h_zobrist::c06_linear(P));
-    maybe("c06_lemma::linear_n", || crate::h_zobrist::c06_linear(N));
-    maybe("c06_lemma::linear_b", || crate::h_zobrist::c06_linear(B));
-    maybe("c06_lemma::linear_r", || crate::h_zobrist::c06_linear(R));
-    maybe("c06_lemma::linear_q", || crate::h_zobrist::c06_linear(Q));
-    maybe("c06_lemma::fields", || crate::h_zobrist::c06_fields());
+    maybe("c06_lemma::linear_p", || crate::h_zobrist::c06_linear(P, 1));
+    maybe("c06_lemma::linear3_p", || crate::h_zobrist::c06_linear(P, 2));
+    maybe("c06_lemma::linear_n", || crate::h_zobrist::c06_linear(N, 1));
+    maybe("c06_lemma::linear3_n", || crate::h_zobrist::c06_linear(N, 2));
+    maybe("c06_lemma::linear_b", || crate::h_zobrist::c06_linear(B, 1));
+    maybe("c06_lemma::linear3_b", || crate::h_zobrist::c06_linear(B, 2));
+    maybe("c06_lemma::linear_r", || crate::h_zobrist::c06_linear(R, 1));
+    maybe("c06_lemma::linear3_r", || crate::h_zobrist::c06_linear(R, 2));
+    maybe("c06_lemma::linear_q", || crate::h_zobrist::c06_linear(Q, 1));
+    maybe("c06_lemma::linear3_q", || crate::h_zobrist::c06_linear(Q, 2));
+    maybe("c06_lemma::fields", || crate::h_zobrist::c06_fields(false));
+    maybe("c06_lemma::fields2", || crate::h_zobrist::c06_fields(true));
     maybe("c06_lemma::separate_piece", || crate::h_zobrist::c06_separate_piece());
     maybe("c06_lemma::separate_king", || crate::h_zobrist::c06_separate_king());
     maybe("c06_lemma::separate_flags", || crate::h_zobrist::c06_separate_flags());
@@ -96,6 +103,21 @@ fn all() {
     maybe("c15::square", || crate::h_uci::c15_square());
     maybe("c15::square_text", || crate::h_uci::c15_square_text());
     maybe("c15::roundtrip", || crate::h_uci::c15_roundtrip());
+    maybe("c15::go_tokens", || crate::h_cmd::c15_go_tokens());
+    maybe("c15::numbers", || crate::h_cmd::c15_numbers());
+    maybe("c15::searchmoves_0", || crate::h_cmd::c15_searchmoves(0));
+    maybe("c15::searchmoves_1", || crate::h_cmd::c15_searchmoves(1));
+    maybe("c15::searchmoves_2", || crate::h_cmd::c15_searchmoves(2));
+    maybe("c15::searchmoves_3", || crate::h_cmd::c15_searchmoves(3));
+    maybe("c15::searchmoves_4", || crate::h_cmd::c15_searchmoves(4));
+    maybe("c15::searchmoves_5", || crate::h_cmd::c15_searchmoves(5));
+    maybe("c15::searchmoves_6", || crate::h_cmd::c15_searchmoves(6));
+    maybe("c15::searchmoves_7", || crate::h_cmd::c15_searchmoves(7));
+    maybe("c15::searchmoves_8", || crate::h_cmd::c15_searchmoves(8));
+    maybe("c15::searchmoves_9", || crate::h_cmd::c15_searchmoves(9));
+    maybe("c15::searchmoves_10", || crate::h_cmd::c15_searchmoves(10));
+    maybe("c15::searchmoves_11", || crate::h_cmd::c15_searchmoves(11));
+    maybe("c15::tokens", || crate::h_cmd::c15_tokens());
 }
 
 /// Runs the named harness body (panics propagate).  Returns false if no such harness exists.
